@@ -76,7 +76,10 @@ PLAN["C01"] = other(
     "raise, and to be a fixed point of re-saving; the plain-json conversion pair (_downconvertDictionaryForJson then "
     "_upconvertDictionaryFromJson, <= 3 tiers, names / spans / entries symbolic) is proved to keep names, order, types "
     "and entries and to replace every tier span by the textgrid span (the stated exemption); _prepTgForSaving is proved "
-    "to write entries verbatim (sorted) with blank filling off and to make a span override the file's span. "
+    "to write entries verbatim (sorted) with blank filling off and to make a span override the file's span; the object "
+    "-> dictionary -> object stages at the two ends of save / open (_tgToDictionary, _dictionaryToTg through the tier "
+    "constructors' and addTier's contracts, <= 2 tiers) are proved to return the same span, names in order, tier "
+    "classes, tier spans and entries, raising nothing. "
     "Bounded: full save/open round trip through the four formats.",
     "Numbers survive the text codec exactly (proved, all x in [0,1e15]); the whole-file round trip holds on the stated "
     "bounded domain (labels with quotes/newlines/keywords, 9 critical numbers, 4 formats x 2 x 2 flags).",
@@ -92,7 +95,7 @@ PLAN["C02"] = other(
 PLAN["C03"] = other(
     "Deductive: numeric decode kernel; _removeBlanks omits exactly the empty-labelled entries; the plain-json "
     "up-conversion after down-conversion returns names, order, types and entries with the textgrid span on every tier "
-    "(<= 3 tiers). Bounded: files from "
+    "(<= 3 tiers); _dictionaryToTg after _tgToDictionary returns an equal textgrid (<= 2 tiers). Bounded: files from "
     "the independent writers (long, short, ELAN-long, two JSON) x encodings x newlines x flags opened by praatio.",
     "The reader returns what a spec-conformant file encodes on the stated bounded domain; blank removal and number "
     "decoding are proved.", ["c03_reader"])
@@ -474,4 +477,8 @@ CANARIES = [
      "target": "praatio.utilities.textgrid_io._prepTgForSaving#fill",
      "old": "_fillInBlanks(tier, \"\", minTimestamp, maxTimestamp)", "new": "_fillInBlanks(tier, \"\", minTimestamp, tier[\"xmax\"])",
      "config": ["k=1,minTimestamp=sym,maxTimestamp=sym"]},
+    {"name": "tgdict-tier-span", "props": ["C01", "C03"], "file": "praatio/data_classes/textgrid.py",
+     "target": "spec.harness.tg_dict_roundtrip",
+     "old": "\"xmin\": tier.minTimestamp,", "new": "\"xmin\": tg.minTimestamp,",
+     "config": ["k=2,reportingMode=silence"]},
 ]
